@@ -13,7 +13,7 @@ spec = {
  "C03": ("proof", "Coq proof over a model of the three label passes + exact pass-by-pass correspondence + closed_b (proved sound) on every real result",
    "Comp/Closed.v passes_closed: for every pass input with distinct offsets the result of strip_last_label;LabelFinalizer;OpsLabelJumpToRemover is closed; closed_b_sound. The pass models are compared pass by pass with the real functions on op lists captured from real compilations (macro programs included); closed_b and the table's arity evaluated on every real compilation."),
  "C04": ("proof", "Coq theorems for integers (every spelling), single-line and multi-line string literals, fixed-point values and position-mark arguments over models tied to the real printers/readers by correspondence; real-code round trip of every parameter kind x context x indent with an explicit exact-form predicate",
-   "Partial proof (integers: parse_print_Z; single-line strings: single_roundtrip_dq/sq + single_lexes; multi-line strings: multi_roundtrip; numbers: spellings_read, fixed_roundtrip, read_print_pos_arg, tie K-num); constants, mark names and the printing contexts are decided on the real printers/readers for generated and bounded-exhaustive values against an explicit `has_exact_form` predicate; residue recorded as known findings."),
+   "Partial proof (integers: parse_print_Z; single-line strings: single_roundtrip_dq/sq + single_lexes; multi-line strings: multi_roundtrip + printed_literal_is_one_token; numbers: spellings_read, fixed_roundtrip, read_print_pos_arg, tie K-num); constants, mark names and the printing contexts are decided on the real printers/readers for generated and bounded-exhaustive values against an explicit `has_exact_form` predicate; residue recorded as known findings."),
  "C05": (tv, "Coq-verified validator against the inlined program (Lang/Inline.v); import layouts in real directories",
    "compiled macro programs are decided against cfg_of_prog(inline p) by the verified checker; definition orders permuted; import resolution checked on real temporary directory layouts."),
  "C06": (tv, "execution on generated + hand-written hard flow graphs; exactness of the fallback against the renumbered input (C07 theorems); Coq theorem that every fallback text is dispatched to the SsbScript compiler (Text/Meta.v, tie K-meta)",
@@ -25,7 +25,7 @@ spec = {
  "C09": ("proof", "Coq proofs about a model of the decompilers' text writer (line counter, entry placement) + correspondence on both decompilers; tagged inputs: entries checked against the text and the compile-time map of the recompiled text",
    "Dec/WriterProofs.v: the line counter equals 1 + line feeds written for every operation sequence; an entry recorded before a statement points at its first character. Partial: which op an entry is recorded for is decided on the real decompiler: entries must be keyed by input offsets, point at the first token of the statement of that op, exist for every printed op, and agree in line with the compile-time map of the recompiled text."),
  "C10": ("exploration", "Coq theorems over the specification (a meaning only if well scoped; unknown / under-applied / cyclic macros rejected by inline) tied to the compiler by acceptance; statically meaningless constructs injected into random valid programs; invalid import graphs; corrupted/degenerate inputs; outcome classes",
-   "Proved over Lang/SrcSem.v + Lang/Inline.v: meaning_implies_well_scoped, unknown_macro_rejected, too_few_arguments_rejected, macro_cycle_rejected; the compiler is tied to the specification by acceptance (accepted => has a meaning) on generated programs. Explored: statically meaningless programs of every class named by the property must be rejected with a documented error; arbitrary inputs may only raise ParseError, SsbCompilerError or ValueError (exception site recorded)."),
+   "Proved over Lang/SrcSem.v + Lang/Inline.v: meaning_iff (a meaning exactly if well scoped and every part has an event), unknown_macro_rejected, too_few_arguments_rejected, macro_cycle_rejected; the compiler is tied to the specification by acceptance (accepted => has a meaning) on generated programs. Explored: statically meaningless programs of every class named by the property must be rejected with a documented error; arbitrary inputs may only raise ParseError, SsbCompilerError or ValueError (exception site recorded)."),
  "C11": ("proof", "Coq frame theorem (history independence from two frame conditions) + audit of the frame conditions on the real process state after every call + differential over call histories vs fresh processes",
    "Hist/Frame.v history_independent: results are history independent if calls read the process state only through obs and restore obs. Both conditions are audited on the real package state (module/class-level values; writer-tagged memo table) after every call; histories are also compared call by call with fresh processes. State inside antlr4/igraph is not covered."),
  "C12": ("proof", "Coq ownership theorem (schedule independence) + audit of the ownership conditions under threads + thread stress vs sequential results",
